@@ -359,7 +359,7 @@ class Canon:
             return copy.deepcopy(bound[n.id])
         if n.id not in self.du.defs:
             return ast.Name(id=n.id, ctx=ast.Load())
-        if n.id in stack or depth >= self.max_depth:
+        if depth >= self.max_depth:
             return ast.Name(id="REC", ctx=ast.Load())
         ents, outer = self.reaching(n.id, at)
         if not ents and not (outer and n.id in self.du.params):
@@ -367,10 +367,14 @@ class Canon:
             ents = list(self.entries.get(n.id, []))
         alts: list[ast.AST] = []
         for v, how, st in ents:
+            key = f"{n.id}@{id(v)}"
+            if key in stack:
+                alts.append(ast.Name(id="REC", ctx=ast.Load()))
+                continue
             if st is None and how.startswith("elem"):
-                cv = self._conv(v, at, stack + (n.id,), depth + 1, {})
+                cv = self._conv(v, at, stack + (key,), depth + 1, {})
             else:
-                cv = self._conv(v, st if st is not None else at, stack + (n.id,), depth + 1, {})
+                cv = self._conv(v, st if st is not None else at, stack + (key,), depth + 1, {})
             if how == "assign":
                 alts.append(cv)
             elif how.startswith("assign["):
